@@ -185,6 +185,7 @@ def run(ctx):
     from harness import corr_c03
     corr_c03.shuffle_modes(ctx)
     noise_cases(ctx)
+    path_order_cases(ctx)
 
 
 def noise_cases(ctx):
@@ -228,13 +229,51 @@ def noise_cases(ctx):
                           signature="C11:shared-generator")
 
 
+def path_order_cases(ctx):
+    """the order in which the search paths are walked (it decides the order of the tests before the shuffle, in every
+    process of the run) is the order given on the command line, --test-path entries first: it must not depend on the
+    interpreter's hash seed"""
+    import json as _json
+    import os as _os
+    import subprocess as _subprocess
+    from harness import common as _common
+    code = ("import sys, json, contextlib, io\n"
+            "from zope.testrunner.options import get_options\n"
+            "with contextlib.redirect_stdout(io.StringIO()):\n"
+            "    o = get_options(['prog'] + sys.argv[1:], [])\n"
+            "print(json.dumps([p for p, pkg in o.test_path]))\n")
+    roots = ["/r/alpha", "/r/beta", "/r/gamma", "/r/delta"]
+    for args, want in ((["--path", roots[0], "--path", roots[1], "--path", roots[2], "--path", roots[3]], roots),
+                       (["--path", roots[2], "--test-path", roots[1], "--path", roots[0]], [roots[1], roots[2], roots[0]]),
+                       (["--test-path", roots[3], "--test-path", roots[0], "--path", roots[1]], [roots[3], roots[0], roots[1]])):
+        for hs in ("0", "1", "7"):
+            env = dict(_os.environ)
+            env["PYTHONHASHSEED"] = hs
+            pr = _subprocess.run([_common.PY, "-c", code] + args, env=env, stdout=_subprocess.PIPE, stderr=_subprocess.PIPE,
+                                 timeout=60)
+            ctx.count(("path-order", tuple(args), hs), sample=None)
+            ctx.bump("path-order")
+            try:
+                got = _json.loads(pr.stdout.decode().strip().split("\n")[-1])
+            except Exception:  # noqa: BLE001
+                ctx.drift("options.test_path", "get_options failed: %s" % pr.stderr.decode()[-300:], {"args": args})
+                continue
+            if got != want:
+                ctx.violation("options %r (PYTHONHASHSEED=%s): the search paths are walked in the order %r, given were %r"
+                              % (args, hs, got, want), {"args": args, "hashseed": hs, "got": got},
+                              signature="C11:path-order")
+                break
+
+
 def seed_handover(ctx):
     """children must shuffle with the seed the parent used (and reported)"""
     from zope.testrunner import runner as zrunner
     from zope.testrunner import shuffle
     from zope.testrunner.options import get_options
     variants = [["--shuffle"], ["--shuffle", "--shuffle-seed", "42"], ["--shuffle-seed", "7", "--shuffle"],
-                ["--shuffle", "-j2"], ["--shuffle", "mod", "tst"], ["--shuffle", "--shuffle-seed=-3"]]
+                ["--shuffle", "-j2"], ["--shuffle", "mod", "tst"], ["--shuffle", "--shuffle-seed=-3"],
+                ["--shuffle", "--shuffle-seed=-1"], ["--shuffle-seed=%d" % -(2 ** 40), "--shuffle"],
+                ["--shuffle", "--shuffle-seed", str(2 ** 70 + 1)], ["--shuffle", "--", "mod"], ["--shuffle", "-j2", "--", "mod", "tst"]]
     for extra in variants:
         args = ["prog"] + extra
         with contextlib.redirect_stdout(io.StringIO()):
@@ -253,8 +292,13 @@ def seed_handover(ctx):
         # the child: configure() pops --resume-layer NAME N and --default pairs, then get_options
         i = argv.index("--resume-layer")
         child_args = ["prog"] + argv[i + 3:]
-        with contextlib.redirect_stdout(io.StringIO()):
-            copts = get_options(child_args, [])
+        try:
+            with contextlib.redirect_stdout(io.StringIO()), contextlib.redirect_stderr(io.StringIO()):
+                copts = get_options(child_args, [])
+        except SystemExit as e:
+            ctx.violation("the child of %r is started with arguments it cannot parse (%r): exit %r" % (args, argv[i:], e.code),
+                          {"parent_args": args, "child_argv": argv}, signature="child-args")
+            continue
         child = shuffle.Shuffle(types.SimpleNamespace(options=copts, tests_by_layer_name={}))
         ctx.count(("handover", tuple(extra)), sample={"parent_args": args, "child_argv": argv[i:],
                                                       "parent_seed": parent.seed, "child_given": copts.shuffle_seed})
